@@ -31,7 +31,7 @@ def is_num(t):
 def damaged(lines, kind, k):
     if isinstance(kind, tuple):          # ("token", token index, replacement)
         toks = lines[k].split()
-        if kind[1] >= len(toks) or (kind[2] == "7" and is_num(toks[kind[1]])):
+        if kind[1] >= len(toks) or (kind[2] == "7" and is_num(toks[kind[1]])) or toks[kind[1]] == kind[2]:
             return lines
         toks[kind[1]] = kind[2]
         return lines[:k] + [" ".join(toks) + "\n"] + lines[k + 1:]
@@ -71,7 +71,7 @@ def _to(*a):
 signal.signal(signal.SIGALRM, _to)
 if w.get("op") == "attr-truncation":
     t = ("@<TRIPOS>MOLECULE\nattrmol\n2 1 0 0 0\nSMALL\nNO_CHARGES\n\n@<TRIPOS>ATOM\n1 C1 0.0 0.0 0.0 C.3 1 UNL 0.0\n2 O1 1.2 0.0 0.0 O.3 1 UNL 0.0\n"
-         "@<TRIPOS>UNITY_ATOM_ATTR\n1 1\ncharge 0\n2 2\ncharge -1\nnote x\n@<TRIPOS>BOND\n1 1 2 1\n@<TRIPOS>UNITY_BOND_ATTR\n1 1\norder 1\n")
+         "@<TRIPOS>BOND\n1 1 2 1\n@<TRIPOS>UNITY_ATOM_ATTR\n1 1\ncharge 0\n2 2\ncharge -1\nnote x\n@<TRIPOS>UNITY_BOND_ATTR\n1 1\norder 1\n")
     ls = t.splitlines(keepends=True)
     for k in range(len(ls) + 1):
         signal.alarm(5)
@@ -81,9 +81,14 @@ if w.get("op") == "attr-truncation":
             if any(m.n_atoms != 2 or m.n_bonds != 1 for m in r):
                 print(f"REPRODUCED: text with attribute records cut after line {k} returned a partial molecule")
                 sys.exit(0)
+            if k > ls.index("@<TRIPOS>UNITY_ATOM_ATTR\n") and any("note" not in m.atoms[1].attrib for m in r):
+                print(f"REPRODUCED: text with attribute records cut after line {k} returned a molecule without the attributes the text assigns")
+                sys.exit(0)
         except TimeoutError:
             print(f"REPRODUCED: the mol2 reader does not terminate on a text with attribute records cut after line {k}")
             sys.exit(0)
+        except SystemExit:
+            raise
         except BaseException:
             signal.alarm(0)
     print("not reproduced")
@@ -92,11 +97,15 @@ e = ens()
 bad = []
 for fmt in ([w.get("format")] if w.get("format") else ["mol2", "xyz"]):
     text = getattr(e, f"dumps_{fmt}")()
+    lines_of = text.splitlines()
     ref = summarize(getattr(ml.Molecule, f"loads_all_{fmt}")(text))
     n = len(text.splitlines())
     per = n // e.n_conformers
     if w.get("kind") == "token":
         fam = [(("token", j, new), k) for k in range(0, min(n, per)) for j in range(0, 10) for new in ("Xq", "7", "-1.5e", "??", "Q7", "a", "1x")]
+        if fmt == "mol2":
+            # atom ids (first token of the atom records) replaced by other ids
+            fam += [(("token", 0, new), k) for k in range(0, min(n, per)) for new in ("1", "2", "0", "3") if lines_of[k].split()[:1] and lines_of[k].split()[0].isdigit() and len(lines_of[k].split()) >= 6]
     elif search or w.get("kind") is None:
         fam = [(kd, k) for kd in ("truncate", "delete", "duplicate") for k in range(0, min(n, 3 * per))]
     else:
